@@ -275,9 +275,34 @@ func (c *RecContractor) RenewV2Contract(ts rhp4.TransactionSet, u proto4.Usage) 
 type RecSectors struct {
 	rhp4.Sectors
 	Rec *Recorder
+
+	mu       sync.Mutex
+	hasFault map[types.Hash256]error
+}
+
+// FailHas makes HasSector fail with err for the given root until cleared with a nil error (a sector
+// store whose lookup fails in the middle of a batch).
+func (s *RecSectors) FailHas(root types.Hash256, err error) {
+	s.mu.Lock()
+	defer s.mu.Unlock()
+	if s.hasFault == nil {
+		s.hasFault = map[types.Hash256]error{}
+	}
+	if err == nil {
+		delete(s.hasFault, root)
+	} else {
+		s.hasFault[root] = err
+	}
 }
 
 func (s *RecSectors) HasSector(root types.Hash256) (bool, error) {
+	s.mu.Lock()
+	fault := s.hasFault[root]
+	s.mu.Unlock()
+	if fault != nil {
+		s.Rec.add(Call{Kind: "has", Root: root, Err: fault})
+		return false, fault
+	}
 	ok, err := s.Sectors.HasSector(root)
 	s.Rec.add(Call{Kind: "has", Root: root, Err: err})
 	return ok, err
